@@ -285,4 +285,1204 @@ theorem fieldFromBytes_field (ty : FTy) (t : Nat) (vb rest : Bytes) (v : Val)
   rw [hs, hv]
   rfl
 
+/-! ### plumbing -/
+
+theorem bind_ok {α β : Type} {x : Except Err α} {f : α → Except Err β} {b : β}
+    (h : (x >>= f) = .ok b) : ∃ a, x = .ok a ∧ f a = .ok b := by
+  cases x with
+  | ok a => exact ⟨a, rfl, by simpa using h⟩
+  | error e => simp at h
+
+theorem mapE_cons_ok {α β : Type} {f : α → Except Err β} {a : α} {as : List α} {r : List β}
+    (h : mapE f (a :: as) = .ok r) : ∃ b bs, f a = .ok b ∧ mapE f as = .ok bs ∧ r = b :: bs := by
+  simp only [mapE] at h
+  obtain ⟨b, hb, h⟩ := bind_ok h
+  obtain ⟨bs, hbs, h⟩ := bind_ok h
+  simp only [pure_eq_ok] at h
+  injection h with h
+  exact ⟨b, bs, hb, hbs, h.symm⟩
+
+theorem mapE_nil_ok {α β : Type} {f : α → Except Err β} {r : List β} (h : mapE f [] = .ok r) : r = [] := by
+  simp only [mapE] at h
+  injection h with h
+  exact h.symm
+
+mutual
+theorem entry_ind {P : Entry → Prop} (hf : ∀ t ty r, P (.field t ty r))
+    (hg : ∀ t sub r, (∀ e ∈ sub, P e) → P (.group t sub r)) : (e : Entry) → P e
+  | .field t ty r => hf t ty r
+  | .group t sub r => hg t sub r (entries_ind hf hg sub)
+theorem entries_ind {P : Entry → Prop} (hf : ∀ t ty r, P (.field t ty r))
+    (hg : ∀ t sub r, (∀ e ∈ sub, P e) → P (.group t sub r)) : (es : List Entry) → ∀ e ∈ es, P e
+  | [] => fun _ h => absurd h (by simp)
+  | x :: xs => fun e h => by
+    rcases List.mem_cons.mp h with h | h
+    · rw [h]; exact entry_ind hf hg x
+    · exact entries_ind hf hg xs e h
+end
+
+/-! ### dictionary facts -/
+
+theorem tag_mem_deepTags (e : Entry) : e.tag ∈ deepTags e := by
+  cases e <;> simp [deepTags, Entry.tag]
+
+theorem innerTags_sub_deepTags (e : Entry) : ∀ t ∈ innerTags e, t ∈ deepTags e := by
+  cases e <;> simp [deepTags, innerTags]
+  intro t h; exact Or.inr h
+
+theorem deepTags_sub_deepTagsL {e : Entry} {es : List Entry} (h : e ∈ es) : ∀ t ∈ deepTags e, t ∈ deepTagsL es := by
+  induction es with
+  | nil => simp at h
+  | cons x xs ih =>
+    intro t ht
+    simp only [deepTagsL, List.mem_append]
+    rcases List.mem_cons.mp h with h | h
+    · subst h; exact Or.inl ht
+    · exact Or.inr (ih h t ht)
+
+theorem tagsOf_sub_deepTagsL (es : List Entry) : ∀ t ∈ tagsOf es, t ∈ deepTagsL es := by
+  intro t ht
+  simp only [tagsOf, List.mem_map] at ht
+  obtain ⟨e, he, rfl⟩ := ht
+  exact deepTags_sub_deepTagsL he _ (tag_mem_deepTags e)
+
+theorem nodup_tagsOf {es : List Entry} (h : (deepTagsL es).Nodup) : (tagsOf es).Nodup := by
+  induction es with
+  | nil => simp [tagsOf]
+  | cons x xs ih =>
+    simp only [deepTagsL] at h
+    rw [List.nodup_append] at h
+    obtain ⟨_, h2, h3⟩ := h
+    simp only [tagsOf, List.map_cons, List.nodup_cons]
+    refine ⟨?_, ih h2⟩
+    intro hm
+    exact h3 _ (tag_mem_deepTags x) _ (tagsOf_sub_deepTagsL xs _ hm) rfl
+
+theorem nodup_deepTags_of_mem {e : Entry} {es : List Entry} (he : e ∈ es) (h : (deepTagsL es).Nodup) :
+    (deepTags e).Nodup := by
+  induction es with
+  | nil => simp at he
+  | cons x xs ih =>
+    simp only [deepTagsL] at h
+    rw [List.nodup_append] at h
+    rcases List.mem_cons.mp he with he | he
+    · subst he; exact h.1
+    · exact ih he h.2.1
+
+/-- a direct tag of a segment is never a tag nested inside one of its groups -/
+theorem tag_not_inner {es : List Entry} (h : (deepTagsL es).Nodup) :
+    ∀ e ∈ es, ∀ e' ∈ es, e'.tag ∉ innerTags e := by
+  induction es with
+  | nil => intro e he; simp at he
+  | cons x xs ih =>
+    simp only [deepTagsL] at h
+    rw [List.nodup_append] at h
+    obtain ⟨h1, h2, h3⟩ := h
+    intro e he e' he' hin
+    rcases List.mem_cons.mp he with ha | ha <;> rcases List.mem_cons.mp he' with hb | hb
+    · rw [ha] at hin; rw [hb] at hin
+      cases x with
+      | field => simp [innerTags] at hin
+      | group t sub r =>
+        simp only [deepTags, List.nodup_cons] at h1
+        exact h1.1 (by simpa [innerTags, Entry.tag] using hin)
+    · rw [ha] at hin
+      exact h3 _ (innerTags_sub_deepTags _ _ hin) _ (tagsOf_sub_deepTagsL xs _ (List.mem_map.mpr ⟨e', hb, rfl⟩)) rfl
+    · rw [hb] at hin
+      exact h3 _ (tag_mem_deepTags _) _ (deepTags_sub_deepTagsL ha _ (innerTags_sub_deepTags _ _ hin)) rfl
+    · exact ih h2 e ha e' hb hin
+
+theorem groupsNonEmpty_of_mem {e : Entry} {es : List Entry} (he : e ∈ es) (h : groupsNonEmptyL es = true) :
+    groupsNonEmpty e = true := by
+  induction es with
+  | nil => simp at he
+  | cons x xs ih =>
+    simp only [groupsNonEmptyL, Bool.and_eq_true] at h
+    rcases List.mem_cons.mp he with he | he
+    · subst he; exact h.1
+    · exact ih he h.2
+
+/-! ### lookups -/
+
+theorem lookupE_some {es : List Entry} {t : Nat} {e : Entry} (h : lookupE es t = some e) : e ∈ es ∧ e.tag = t := by
+  induction es with
+  | nil => simp [lookupE] at h
+  | cons x xs ih =>
+    simp only [lookupE] at h
+    split at h
+    · injection h with h; subst h; exact ⟨by simp, by assumption⟩
+    · obtain ⟨h1, h2⟩ := ih h; exact ⟨by simp [h1], h2⟩
+
+theorem lookupE_mem {es : List Entry} (hnd : (tagsOf es).Nodup) {e : Entry} (he : e ∈ es) : lookupE es e.tag = some e := by
+  induction es with
+  | nil => simp at he
+  | cons x xs ih =>
+    simp only [tagsOf, List.map_cons, List.nodup_cons] at hnd
+    simp only [lookupE]
+    rcases List.mem_cons.mp he with he | he
+    · subst he; simp
+    · have : x.tag ≠ e.tag := by
+        intro hx; exact hnd.1 (by rw [hx]; exact List.mem_map.mpr ⟨e, he, rfl⟩)
+      simp [this, ih hnd.2 he]
+
+theorem lookupT_tableOf {es : List Entry} (hnd : (tagsOf es).Nodup) {e : Entry} (he : e ∈ es) :
+    lookupT (tableOf es) (e.tag : Int) = some (fun bs => entryDec e bs) := by
+  induction es with
+  | nil => simp at he
+  | cons x xs ih =>
+    simp only [tagsOf, List.map_cons, List.nodup_cons] at hnd
+    simp only [tableOf, lookupT]
+    rcases List.mem_cons.mp he with he | he
+    · subst he; simp
+    · have : x.tag ≠ e.tag := by
+        intro hx; exact hnd.1 (by rw [hx]; exact List.mem_map.mpr ⟨e, he, rfl⟩)
+      have : ¬ ((x.tag : Int) = (e.tag : Int)) := by omega
+      simp [this, ih hnd.2 he]
+
+theorem lookupT_tableOf_none {es : List Entry} {t : Nat} (h : t ∉ tagsOf es) : lookupT (tableOf es) (t : Int) = none := by
+  induction es with
+  | nil => simp [tableOf, lookupT]
+  | cons x xs ih =>
+    simp only [tagsOf, List.map_cons, List.mem_cons, not_or] at h
+    simp only [tableOf, lookupT]
+    have : ¬ ((x.tag : Int) = (t : Int)) := by omega
+    simp only [this, if_false]
+    exact ih h.2
+
+theorem hasKey_iff {s : Seg} {t : Nat} : hasKey s t = true ↔ t ∈ keysOf s := by
+  induction s with
+  | nil => simp [hasKey, lookupV, keysOf]
+  | cons p s ih =>
+    obtain ⟨k, v⟩ := p
+    simp only [hasKey, lookupV, keysOf, List.map_cons, List.mem_cons] at ih ⊢
+    by_cases hk : k = t
+    · simp [hk]
+    · have : ¬ t = k := fun h => hk h.symm
+      simp [hk, this, ih]
+
+theorem hasKey_false {s : Seg} {t : Nat} (h : t ∉ keysOf s) : hasKey s t = false := by
+  cases hh : hasKey s t with
+  | false => rfl
+  | true => exact absurd (hasKey_iff.mp hh) h
+
+theorem lookupV_mem {s : Seg} {t : Nat} {v : Val} (h : lookupV s t = some v) : (t, v) ∈ s := by
+  induction s with
+  | nil => simp [lookupV] at h
+  | cons p s ih =>
+    obtain ⟨k, w⟩ := p
+    simp only [lookupV] at h
+    split at h
+    · injection h with h; subst h; rename_i hk; subst hk; simp
+    · simp [ih h]
+
+/-! ### what follows a value on the wire -/
+
+/-- `rest` is empty or begins with `<tag>=` for a tag satisfying `P` -/
+def Starts (P : Nat → Prop) (rest : Bytes) : Prop :=
+  rest = [] ∨ ∃ t tail, rest = natDigits t ++ 61 :: tail ∧ P t
+
+theorem Starts.mono {P Q : Nat → Prop} {rest : Bytes} (h : Starts P rest) (hpq : ∀ t, P t → Q t) : Starts Q rest := by
+  rcases h with h | ⟨t, tail, h, hp⟩
+  · exact Or.inl h
+  · exact Or.inr ⟨t, tail, h, hpq t hp⟩
+
+theorem joinSOH_cons_head (a : Bytes) (l : List Bytes) : ∃ tail, joinSOH (a :: l) = a ++ tail := by
+  cases l with
+  | nil => exact ⟨[], by simp [joinSOH]⟩
+  | cons b l => exact ⟨1 :: joinSOH (b :: l), by simp [joinSOH]⟩
+
+/-- every encoded entry begins with its own `<tag>=` -/
+theorem enc_head {e : Entry} {v : Val} {b : Bytes} (h : encEntry e v = .ok b) :
+    ∃ tail, b = natDigits e.tag ++ 61 :: tail := by
+  cases e with
+  | field t ty r =>
+    simp only [encEntry] at h
+    obtain ⟨vb, _, h⟩ := bind_ok h
+    simp only [pure_eq_ok] at h
+    injection h with h
+    exact ⟨vb, by simp [← h, fieldBytes, Entry.tag]⟩
+  | group t sub r =>
+    cases v with
+    | grp insts =>
+      simp only [encEntry] at h
+      obtain ⟨gs, _, h⟩ := bind_ok h
+      simp only [pure_eq_ok] at h
+      injection h with h
+      obtain ⟨tail, ht⟩ := joinSOH_cons_head (fieldBytes t (intStr (insts.length : Int))) gs
+      exact ⟨intStr (insts.length : Int) ++ tail, by rw [← h, ht]; simp [fieldBytes, Entry.tag]⟩
+    | int _ => simp [encEntry] at h
+    | flt _ => simp [encEntry] at h
+    | bool _ => simp [encEntry] at h
+    | str _ => simp [encEntry] at h
+
+/-- the head of a segment loop iteration: reading the tag in front of `<tag>=…` -/
+theorem tag_read (t : Nat) (tail : Bytes) :
+    (match findSub [61] (natDigits t ++ 61 :: tail) with
+      | some p => (natDigits t ++ 61 :: tail).take p
+      | none => (natDigits t ++ 61 :: tail).dropLast) = natDigits t := by
+  rw [findSub_one_append 61 _ _ (natDigits_no t 61 (by decide))]
+  simp
+
+theorem natDigits_append_ne_nil (t : Nat) (tail : Bytes) : (natDigits t ++ 61 :: tail).isEmpty = false := by
+  simp
+
+/-! ### the segment loop on encoded fields -/
+
+/-- one iteration of the `while` loop of `DataSegment.from_bytes` on bytes that begin with `<tag>=` -/
+theorem segLoop_step (tbl : Table) (fuel t : Nat) (tail : Bytes) (c : Nat) (acc : Seg) :
+    segLoop tbl (fuel + 1) (natDigits t ++ 61 :: tail) c acc =
+      if hasKey acc t = true then .ok (c, acc) else
+      match lookupT tbl (t : Int) with
+      | none => .ok (c, acc)
+      | some dec => (dec (natDigits t ++ 61 :: tail)) >>= fun r =>
+          segLoop tbl fuel ((natDigits t ++ 61 :: tail).drop r.1) (c + r.1) (acc ++ [(t, r.2)]) := by
+  rw [segLoop]
+  rw [natDigits_append_ne_nil]
+  have e := findSub_one_append 61 (natDigits t) tail (natDigits_no t 61 (by decide))
+  have h0 : (0 : Int) ≤ (t : Int) := by omega
+  simp only [Bool.false_eq_true, if_false, e, List.take_left', decodeAscii_natDigits, ok_bind, parseIntStr_natDigits,
+    h0, true_and, Int.toNat_natCast]
+  by_cases hk : hasKey acc t = true
+  · simp only [hk, if_true]
+  · simp only [hk]
+    cases lookupT tbl (t : Int) <;> rfl
+
+abbrev Item := Entry × Val × Bytes
+def itemTags (fs : List Item) : List Nat := fs.map (fun x => x.1.tag)
+def wireItems (fs : List Item) : Bytes := termAll (fs.map (fun x => x.2.2))
+def canonItems (fs : List Item) : Seg := fs.map (fun x => (x.1.tag, canonVal x.1 x.2.1))
+
+/-- the decoding statement for one entry: its encoding followed by SOH and by bytes that cannot be mistaken for
+    more of it is read back completely, as the canonical value -/
+def DecOK (e : Entry) : Prop :=
+  ∀ v b rest, wfVal e v = true → encEntry e v = .ok b → Starts (fun t => t ∉ innerTags e) rest →
+    entryDec e (b ++ 1 :: rest) = .ok (b.length + 1, canonVal e v)
+
+theorem wireItems_cons (x : Item) (fs : List Item) : wireItems (x :: fs) = x.2.2 ++ 1 :: wireItems fs := by
+  simp [wireItems, termAll_cons]
+
+theorem wireItems_length_ge (fs : List Item) : fs.length ≤ (wireItems fs).length := by
+  have := termAll_length_ge (fs.map (fun x => x.2.2))
+  simpa [wireItems] using this
+
+/-- what follows the encoded items begins with the first item's tag -/
+theorem starts_wireItems {P : Nat → Prop} (fs : List Item) (rest : Bytes)
+    (hfs : ∀ x ∈ fs, encEntry x.1 x.2.1 = .ok x.2.2) (hP : ∀ x ∈ fs, P x.1.tag) (hrest : Starts P rest) :
+    Starts P (wireItems fs ++ rest) := by
+  cases fs with
+  | nil => simpa [wireItems, termAll] using hrest
+  | cons x fs =>
+    obtain ⟨tl, htl⟩ := enc_head (hfs x (by simp))
+    refine Or.inr ⟨x.1.tag, tl ++ 1 :: (wireItems fs ++ rest), ?_, hP x (by simp)⟩
+    rw [wireItems_cons, htl]
+    simp
+
+theorem segLoop_items (es : List Entry) (hnd : (deepTagsL es).Nodup) (hP : ∀ e ∈ es, DecOK e) :
+    ∀ (fs : List Item) (acc : Seg) (c fuel : Nat) (rest : Bytes),
+      (∀ x ∈ fs, x.1 ∈ es ∧ wfVal x.1 x.2.1 = true ∧ encEntry x.1 x.2.1 = .ok x.2.2) →
+      (itemTags fs ++ keysOf acc).Nodup →
+      fs.length < fuel →
+      Starts (fun t => (t ∈ keysOf acc ∨ t ∈ itemTags fs ∨ t ∉ tagsOf es) ∧ ∀ e ∈ es, t ∉ innerTags e) rest →
+      segLoop (tableOf es) fuel (wireItems fs ++ rest) c acc
+        = .ok (c + (wireItems fs).length, acc ++ canonItems fs) := by
+  intro fs
+  induction fs with
+  | nil =>
+    intro acc c fuel rest _ _ hfuel hrest
+    obtain ⟨fuel, rfl⟩ : ∃ f, fuel = f + 1 := ⟨fuel - 1, by simp at hfuel; omega⟩
+    simp only [wireItems, List.map_nil, termAll_nil, List.nil_append, List.length_nil, Nat.add_zero, canonItems,
+      List.append_nil]
+    rcases hrest with hrest | ⟨t, tail, hrest, ⟨hq, _⟩⟩
+    · subst hrest
+      rw [segLoop]
+      simp
+    · subst hrest
+      rw [segLoop_step]
+      by_cases hk : t ∈ keysOf acc
+      · simp [hasKey_iff.mpr hk]
+      · rw [hasKey_false hk]
+        have : t ∉ tagsOf es := by
+          rcases hq with hq | hq | hq
+          · exact absurd hq hk
+          · simp [itemTags] at hq
+          · exact hq
+        simp [lookupT_tableOf_none this]
+  | cons x fs ih =>
+    intro acc c fuel rest hfs hnodup hfuel hrest
+    obtain ⟨fuel, rfl⟩ : ∃ f, fuel = f + 1 := ⟨fuel - 1, by simp at hfuel; omega⟩
+    obtain ⟨hxes, hxwf, hxenc⟩ := hfs x (by simp)
+    obtain ⟨tl, htl⟩ := enc_head hxenc
+    have hform : x.2.2 ++ 1 :: (wireItems fs ++ rest)
+        = natDigits x.1.tag ++ 61 :: (tl ++ 1 :: (wireItems fs ++ rest)) := by rw [htl]; simp
+    have htn : (tagsOf es).Nodup := nodup_tagsOf hnd
+    -- the tag of `x` is new
+    have hxk : x.1.tag ∉ keysOf acc := by
+      intro hk
+      simp only [itemTags, List.map_cons, List.cons_append, List.nodup_cons, List.mem_append, not_or] at hnodup
+      exact hnodup.1.2 hk
+    -- what follows `x` cannot be mistaken for more of `x`
+    have hfollow : Starts (fun t => t ∉ innerTags x.1) (wireItems fs ++ rest) := by
+      apply starts_wireItems fs rest (fun y hy => (hfs y (by simp [hy])).2.2)
+      · intro y hy
+        exact tag_not_inner hnd x.1 hxes y.1 (hfs y (by simp [hy])).1
+      · exact hrest.mono (fun t ht => ht.2 x.1 hxes)
+    have hdec := hP x.1 hxes x.2.1 x.2.2 (wireItems fs ++ rest) hxwf hxenc hfollow
+    rw [wireItems_cons, List.append_assoc, List.cons_append, hform, segLoop_step, hasKey_false hxk,
+      lookupT_tableOf htn hxes]
+    simp only [Bool.false_eq_true, if_false]
+    rw [← hform, hdec]
+    simp only [ok_bind]
+    have hdrop : (x.2.2 ++ 1 :: (wireItems fs ++ rest)).drop (x.2.2.length + 1) = wireItems fs ++ rest := by
+      have : x.2.2 ++ 1 :: (wireItems fs ++ rest) = (x.2.2 ++ [1]) ++ (wireItems fs ++ rest) := by simp
+      rw [this, List.drop_left']
+      simp
+    rw [hdrop]
+    have hnodup' : (itemTags fs ++ keysOf (acc ++ [(x.1.tag, canonVal x.1 x.2.1)])).Nodup := by
+      simp only [itemTags, List.map_cons, List.cons_append, List.nodup_cons] at hnodup
+      have h2 := hnodup.2
+      have h1 := hnodup.1
+      simp only [keysOf, List.map_append, List.map_cons, List.map_nil] at h1 h2 ⊢
+      rw [← List.append_assoc]
+      rw [List.nodup_append]
+      refine ⟨h2, by simp, ?_⟩
+      intro a ha b hb
+      simp at hb
+      subst hb
+      intro hab
+      subst hab
+      exact h1 ha
+    have hrest' : Starts (fun t => (t ∈ keysOf (acc ++ [(x.1.tag, canonVal x.1 x.2.1)]) ∨ t ∈ itemTags fs ∨ t ∉ tagsOf es)
+        ∧ ∀ e ∈ es, t ∉ innerTags e) rest := by
+      apply hrest.mono
+      intro t ⟨ht, ht2⟩
+      refine ⟨?_, ht2⟩
+      rcases ht with ht | ht | ht
+      · exact Or.inl (by simp [keysOf] at ht ⊢; exact Or.inl ht)
+      · simp only [itemTags, List.map_cons, List.mem_cons] at ht
+        rcases ht with ht | ht
+        · exact Or.inl (by simp [keysOf, ht])
+        · exact Or.inr (Or.inl ht)
+      · exact Or.inr (Or.inr ht)
+    rw [ih (acc ++ [(x.1.tag, canonVal x.1 x.2.1)]) (c + (x.2.2.length + 1)) fuel rest
+      (fun y hy => hfs y (by simp [hy])) hnodup' (by simp at hfuel; omega) hrest']
+    simp only [canonItems, List.map_cons, List.length_append, List.length_cons, List.append_assoc,
+      List.cons_append, List.nil_append]
+    congr 2
+    omega
+
+/-! ### group instances -/
+
+/-- element-wise relation between two lists -/
+inductive All₂ {α β : Type} (R : α → β → Prop) : List α → List β → Prop
+  | nil : All₂ R [] []
+  | cons {a : α} {b : β} {as : List α} {bs : List β} : R a b → All₂ R as bs → All₂ R (a :: as) (b :: bs)
+
+theorem mapE_all₂ {α β : Type} {f : α → Except Err β} : ∀ {l : List α} {r : List β}, mapE f l = .ok r →
+    All₂ (fun a b => f a = .ok b) l r
+  | [], r, h => by rw [mapE_nil_ok h]; exact .nil
+  | a :: as, r, h => by
+    have h' := mapE_cons_ok h
+    obtain ⟨b, bs, hb, hbs, rfl⟩ := h'
+    exact .cons hb (mapE_all₂ hbs)
+
+theorem wfFields_mem {es : List Entry} {s : Seg} (h : wfFields es s = true) {t : Nat} {v : Val} (hm : (t, v) ∈ s) :
+    ∃ e, lookupE es t = some e ∧ wfVal e v = true := by
+  induction s with
+  | nil => simp at hm
+  | cons p s ih =>
+    obtain ⟨k, w⟩ := p
+    simp only [wfFields, Bool.and_eq_true] at h
+    rcases List.mem_cons.mp hm with hm | hm
+    · injection hm with h1 h2
+      subst h1; subst h2
+      cases hl : lookupE es t with
+      | none => rw [hl] at h; simp at h
+      | some e => rw [hl] at h; exact ⟨e, rfl, h.1⟩
+    · exact ih h.2 hm
+
+/-- the items `Group.to_bytes` writes for one instance: the entries present in it, in dictionary order -/
+theorem encGroupFields_items (sub : List Entry) (hnd : (tagsOf sub).Nodup) (inst : Seg) (hwf : wfFields sub inst = true) :
+    ∀ (es' : List Entry) (fbs : List Bytes), (∀ e ∈ es', e ∈ sub) → encGroupFields es' inst = .ok fbs →
+      ∃ fs : List Item, fs.map (fun x => x.2.2) = fbs ∧
+        (∀ x ∈ fs, x.1 ∈ sub ∧ wfVal x.1 x.2.1 = true ∧ encEntry x.1 x.2.1 = .ok x.2.2) ∧
+        itemTags fs = (es'.filter (fun e => hasKey inst e.tag)).map Entry.tag ∧
+        canonFields es' inst = canonItems fs := by
+  intro es'
+  induction es' with
+  | nil =>
+    intro fbs _ h
+    simp only [encGroupFields, pure_eq_ok] at h
+    injection h with h
+    exact ⟨[], by simp [h], by simp, by simp [itemTags], by simp [canonFields, canonItems]⟩
+  | cons e es' ih =>
+    intro fbs hsub h
+    have he : e ∈ sub := hsub e (by simp)
+    simp only [encGroupFields] at h
+    cases hl : lookupV inst e.tag with
+    | none =>
+      rw [hl] at h
+      obtain ⟨fs, h1, h2, h3, h4⟩ := ih fbs (fun x hx => hsub x (by simp [hx])) h
+      have hk : hasKey inst e.tag = false := by simp [hasKey, hl]
+      exact ⟨fs, h1, h2, by simp [h3, hk], by simp [canonFields, hl, h4]⟩
+    | some v =>
+      rw [hl] at h
+      simp only at h
+      obtain ⟨b, hb, hh⟩ := bind_ok h
+      obtain ⟨r, hr, hh2⟩ := bind_ok hh
+      simp only [pure_eq_ok] at hh2
+      injection hh2 with hfb
+      obtain ⟨fs, h1, h2, h3, h4⟩ := ih r (fun x hx => hsub x (by simp [hx])) hr
+      have hk : hasKey inst e.tag = true := by simp [hasKey, hl]
+      obtain ⟨e', hle, hwv⟩ := wfFields_mem hwf (lookupV_mem hl)
+      have : e' = e := by
+        have := lookupE_mem hnd he
+        rw [hle] at this
+        injection this
+      subst this
+      refine ⟨(e', v, b) :: fs, by simp [h1, ← hfb], ?_, by simp [itemTags, hk] at h3 ⊢; exact h3,
+        by simp [canonFields, hl, h4, canonItems]⟩
+      intro x hx
+      rcases List.mem_cons.mp hx with hx | hx
+      · subst hx; exact ⟨he, hwv, hb⟩
+      · exact h2 x hx
+
+theorem deepTagsL_inner {sub : List Entry} {e : Entry} (he : e ∈ sub) : ∀ t ∈ innerTags e, t ∈ deepTagsL sub :=
+  fun t ht => deepTags_sub_deepTagsL he t (innerTags_sub_deepTags e t ht)
+
+/-- the instance loop of `GroupContainer.from_bytes` on the encodings of well-formed instances -/
+theorem grpLoop_insts (sub : List Entry) (hnd : (deepTagsL sub).Nodup) (hP : ∀ e ∈ sub, DecOK e) :
+    ∀ (insts : List Seg) (gs : List Bytes) (acc : List Seg) (c : Nat) (rest : Bytes),
+      wfInsts sub insts = true →
+      All₂ (fun inst g => ∃ fbs, encGroupFields sub inst = .ok fbs ∧ g = joinSOH fbs) insts gs →
+      Starts (fun t => t ∉ deepTagsL sub) rest →
+      grpLoop (tableOf sub) insts.length (termAll gs ++ rest) c acc
+        = .ok (c + (termAll gs).length, acc ++ insts.map (canonFields sub)) := by
+  intro insts
+  induction insts with
+  | nil =>
+    intro gs acc c rest _ hgs _
+    cases hgs
+    simp [grpLoop, termAll]
+  | cons inst insts ih =>
+    intro gs acc c rest hwf hgs hrest
+    cases hgs with
+    | @cons _ g _ gs' hg hgs' =>
+      obtain ⟨fbs, hfbs, rfl⟩ := hg
+      simp only [wfInsts, Bool.and_eq_true, decide_eq_true_eq] at hwf
+      obtain ⟨⟨⟨hwff, hfirst⟩, hkeys⟩, hwf'⟩ := hwf
+      have htn := nodup_tagsOf hnd
+      obtain ⟨fs, h1, h2, h3, h4⟩ := encGroupFields_items sub htn inst hwff sub fbs (fun e he => he) hfbs
+      -- the first entry of the group is the first item
+      cases sub with
+      | nil => simp [firstPresent] at hfirst
+      | cons e1 sub' =>
+        simp only [firstPresent] at hfirst
+        have hfs : ∃ x fs', fs = x :: fs' ∧ x.1.tag = e1.tag := by
+          simp only [List.filter_cons, hfirst, if_true, List.map_cons] at h3
+          cases fs with
+          | nil => simp [itemTags] at h3
+          | cons x fs' =>
+            simp only [itemTags, List.map_cons] at h3
+            injection h3 with h3 _
+            exact ⟨x, fs', rfl, h3⟩
+        obtain ⟨x, fs', rfl, hx1⟩ := hfs
+        have hfbs_ne : fbs = x.2.2 :: fs'.map (fun x => x.2.2) := by rw [← h1]; simp
+        have hg1 : joinSOH fbs ++ [1] = wireItems (x :: fs') := by
+          rw [hfbs_ne, joinSOH_term]; simp [wireItems]
+        have hbs : termAll (joinSOH fbs :: gs') ++ rest = wireItems (x :: fs') ++ (termAll gs' ++ rest) := by
+          rw [termAll_cons, ← hg1]; simp
+        have hne : (termAll (joinSOH fbs :: gs') ++ rest).isEmpty = false := by
+          rw [termAll_cons]; simp
+        -- what follows this instance
+        have hnext : Starts (fun t => (t ∈ keysOf ([] : Seg) ∨ t ∈ itemTags (x :: fs') ∨ t ∉ tagsOf (e1 :: sub')) ∧
+            ∀ e ∈ (e1 :: sub'), t ∉ innerTags e) (termAll gs' ++ rest) := by
+          cases hgs' with
+          | nil =>
+            simp only [termAll_nil, List.nil_append]
+            apply hrest.mono
+            intro t ht
+            refine ⟨Or.inr (Or.inr (fun hm => ht (tagsOf_sub_deepTagsL _ t hm))), ?_⟩
+            intro e he hin
+            exact ht (deepTagsL_inner he t hin)
+          | @cons inst2 g2 insts2 gs2 hg2 _ =>
+            obtain ⟨fbs2, hfbs2, rfl⟩ := hg2
+            simp only [wfInsts, Bool.and_eq_true, decide_eq_true_eq] at hwf'
+            obtain ⟨⟨⟨hwff2, hfirst2⟩, _⟩, _⟩ := hwf'
+            simp only [firstPresent] at hfirst2
+            obtain ⟨fs2, k1, k2, k3, _⟩ := encGroupFields_items (e1 :: sub') htn inst2 hwff2 (e1 :: sub') fbs2 (fun e he => he) hfbs2
+            simp only [List.filter_cons, hfirst2, if_true, List.map_cons] at k3
+            cases fs2 with
+            | nil => simp [itemTags] at k3
+            | cons y fs2' =>
+              simp only [itemTags, List.map_cons] at k3
+              injection k3 with k3 _
+              obtain ⟨tl, htl⟩ := enc_head (k2 y (by simp)).2.2
+              have hf2 : fbs2 = y.2.2 :: fs2'.map (fun x => x.2.2) := by rw [← k1]; simp
+              obtain ⟨tl2, htl2⟩ := joinSOH_cons_head y.2.2 (fs2'.map (fun x => x.2.2))
+              refine Or.inr ⟨e1.tag, tl ++ tl2 ++ 1 :: termAll gs2 ++ rest, ?_, ?_, ?_⟩
+              · rw [termAll_cons, hf2, htl2, htl, k3]; simp
+              · exact Or.inr (Or.inl (by simp [itemTags, hx1]))
+              · intro e he
+                exact tag_not_inner hnd e he e1 (by simp)
+        have hnodup : (itemTags (x :: fs') ++ keysOf ([] : Seg)).Nodup := by
+          simp only [keysOf, List.map_nil, List.append_nil]
+          rw [h3]
+          exact (List.filter_sublist.map Entry.tag).nodup htn
+        have hseg := segLoop_items (e1 :: sub') hnd hP (x :: fs') [] 0
+          ((termAll (joinSOH fbs :: gs') ++ rest).length + 1) (termAll gs' ++ rest) h2 hnodup
+          (by rw [hbs]; have := wireItems_length_ge (x :: fs'); simp only [List.length_append]; omega) hnext
+        simp only [List.length_cons]
+        rw [grpLoop, hne]
+        simp only [Bool.false_eq_true, if_false, segFromBytes]
+        rw [hbs] at hseg ⊢
+        rw [hseg]
+        simp only [ok_bind, Nat.zero_add, List.nil_append]
+        rw [List.drop_left']
+        · rw [ih gs' (acc ++ [canonItems (x :: fs')]) (c + (wireItems (x :: fs')).length) rest hwf' hgs' hrest]
+          rw [← h4]
+          simp only [List.map_cons, List.append_assoc, List.cons_append, List.nil_append, termAll_cons, ← hg1,
+            List.length_append, List.length_cons, List.length_nil]
+          congr 2
+          omega
+        · rfl
+
+/-! ### every entry decodes its own encoding -/
+
+theorem All₂.imp {α β : Type} {R S : α → β → Prop} {l : List α} {r : List β} (h : All₂ R l r)
+    (hrs : ∀ a b, R a b → S a b) : All₂ S l r := by
+  induction h with
+  | nil => exact .nil
+  | cons hab _ ih => exact .cons (hrs _ _ hab) ih
+
+theorem decOK_field (t : Nat) (ty : FTy) (r : Bool) : DecOK (.field t ty r) := by
+  intro v b rest hwf henc _
+  simp only [wfVal] at hwf
+  simp only [encEntry] at henc
+  obtain ⟨vb, hvb, h⟩ := bind_ok henc
+  simp only [pure_eq_ok] at h
+  injection h with h
+  subst h
+  obtain ⟨h1, hback⟩ := prim_roundtrip hwf hvb
+  simp only [entryDec]
+  rw [fieldFromBytes_field ty t vb rest v h1 hback]
+  cases v <;> simp [canonVal]
+
+theorem decOK_group (t : Nat) (sub : List Entry) (r : Bool) (hnd : (deepTagsL sub).Nodup)
+    (hP : ∀ e ∈ sub, DecOK e) : DecOK (.group t sub r) := by
+  intro v b rest hwf henc hrest
+  cases v with
+  | grp insts =>
+    simp only [wfVal] at hwf
+    simp only [encEntry] at henc
+    obtain ⟨gs, hgs, h⟩ := bind_ok henc
+    simp only [pure_eq_ok] at h
+    injection h with h
+    subst h
+    have hall := mapE_all₂ hgs
+    have hall' : All₂ (fun inst g => ∃ fbs, encGroupFields sub inst = .ok fbs ∧ g = joinSOH fbs) insts gs := by
+      apply hall.imp
+      intro a b hab
+      obtain ⟨fbs, hf, hh⟩ := bind_ok hab
+      simp only [pure_eq_ok] at hh
+      injection hh with hh
+      exact ⟨fbs, hf, hh.symm⟩
+    have hcnt : fieldFromBytes .int (fieldBytes t (intStr (insts.length : Int)) ++ 1 :: (termAll gs ++ rest))
+        = .ok ((fieldBytes t (intStr (insts.length : Int))).length + 1, .int (insts.length : Int)) := by
+      apply fieldFromBytes_field
+      · exact intStr_no_soh _
+      · simp only [tyFromBytes, decodeAscii, intStr_all_lt', if_true, ok_bind, parseIntStr_intStr, pure_eq_ok]
+    have hb : joinSOH (fieldBytes t (intStr (insts.length : Int)) :: gs) ++ 1 :: rest
+        = fieldBytes t (intStr (insts.length : Int)) ++ 1 :: (termAll gs ++ rest) := by
+      have := joinSOH_term (fieldBytes t (intStr (insts.length : Int))) gs
+      have e : joinSOH (fieldBytes t (intStr (insts.length : Int)) :: gs) ++ 1 :: rest
+          = (joinSOH (fieldBytes t (intStr (insts.length : Int)) :: gs) ++ [1]) ++ rest := by simp
+      rw [e, this, termAll_cons]
+      simp
+    have hlen : (joinSOH (fieldBytes t (intStr (insts.length : Int)) :: gs)).length + 1
+        = (fieldBytes t (intStr (insts.length : Int))).length + 1 + (termAll gs).length := by
+      have := congrArg List.length (joinSOH_term (fieldBytes t (intStr (insts.length : Int))) gs)
+      rw [termAll_cons] at this
+      simp only [List.length_append, List.length_cons, List.length_nil] at this
+      omega
+    simp only [entryDec, containerFromBytes]
+    rw [hb, hcnt]
+    simp only [ok_bind, Int.toNat_natCast]
+    have hdrop : (fieldBytes t (intStr (insts.length : Int)) ++ 1 :: (termAll gs ++ rest)).drop
+        ((fieldBytes t (intStr (insts.length : Int))).length + 1) = termAll gs ++ rest := by
+      have e : fieldBytes t (intStr (insts.length : Int)) ++ 1 :: (termAll gs ++ rest)
+          = (fieldBytes t (intStr (insts.length : Int)) ++ [1]) ++ (termAll gs ++ rest) := by simp
+      rw [e, List.drop_left']
+      simp
+    rw [hdrop, grpLoop_insts sub hnd hP insts gs [] _ rest hwf hall' hrest]
+    simp only [ok_bind, List.nil_append, List.length_map, ne_eq, not_true_eq_false, if_false, pure_eq_ok, canonVal]
+    rw [hlen]
+  | int _ => simp [wfVal] at hwf
+  | flt _ => simp [wfVal] at hwf
+  | bool _ => simp [wfVal] at hwf
+  | str _ => simp [wfVal] at hwf
+
+/-- **every entry of a dictionary with pairwise distinct tags reads back what it wrote** -/
+theorem decOK_all : ∀ e : Entry, (deepTags e).Nodup → DecOK e := by
+  apply entry_ind
+  · intro t ty r _
+    exact decOK_field t ty r
+  · intro t sub r ih hnd
+    simp only [deepTags, List.nodup_cons] at hnd
+    exact decOK_group t sub r hnd.2 (fun e he => ih e he (nodup_deepTags_of_mem he hnd.2))
+
+theorem decOK_of_mem {es : List Entry} (hnd : (deepTagsL es).Nodup) : ∀ e ∈ es, DecOK e :=
+  fun e he => decOK_all e (nodup_deepTags_of_mem he hnd)
+
+/-! ### top-level segments -/
+
+/-- the items `DataSegment.to_bytes` writes: the values in insertion order -/
+theorem encSegFields_items (es : List Entry) :
+    ∀ (s : Seg) (fbs : List Bytes), wfFields es s = true → encSegFields es s = .ok fbs →
+      ∃ fs : List Item, fs.map (fun x => x.2.2) = fbs ∧
+        (∀ x ∈ fs, x.1 ∈ es ∧ wfVal x.1 x.2.1 = true ∧ encEntry x.1 x.2.1 = .ok x.2.2) ∧
+        itemTags fs = keysOf s ∧ canonSeg es s = canonItems fs := by
+  intro s
+  induction s with
+  | nil =>
+    intro fbs _ h
+    have := mapE_nil_ok h
+    exact ⟨[], by simp [this], by simp, by simp [itemTags, keysOf], by simp [canonSeg, canonItems]⟩
+  | cons p s ih =>
+    intro fbs hwf h
+    obtain ⟨k, v⟩ := p
+    obtain ⟨b, bs, hb, hbs, rfl⟩ := mapE_cons_ok h
+    simp only [wfFields, Bool.and_eq_true] at hwf
+    cases hl : lookupE es k with
+    | none => rw [hl] at hwf; simp at hwf
+    | some e =>
+      rw [hl] at hwf
+      simp only [hl] at hb
+      obtain ⟨hmem, htag⟩ := lookupE_some hl
+      obtain ⟨fs, h1, h2, h3, h4⟩ := ih bs hwf.2 hbs
+      refine ⟨(e, v, b) :: fs, by simp [h1], ?_, by simp [itemTags, keysOf, htag] at h3 ⊢; exact h3, ?_⟩
+      · intro x hx
+        rcases List.mem_cons.mp hx with hx | hx
+        · subst hx; exact ⟨hmem, hwf.1, hb⟩
+        · exact h2 x hx
+      · simp only [canonSeg, List.map_cons, hl, canonItems, htag] at h4 ⊢
+        rw [h4]
+
+theorem segFromBytes_seg (es : List Entry) (hnd : (deepTagsL es).Nodup) (s : Seg) (fbs : List Bytes)
+    (hwf : wfSeg es s = true) (henc : encSegFields es s = .ok fbs) (rest : Bytes)
+    (hrest : Starts (fun t => t ∉ deepTagsL es) rest) :
+    segFromBytes (tableOf es) (termAll fbs ++ rest) = .ok ((termAll fbs).length, canonSeg es s) := by
+  simp only [wfSeg, Bool.and_eq_true, decide_eq_true_eq] at hwf
+  obtain ⟨fs, h1, h2, h3, h4⟩ := encSegFields_items es s fbs hwf.1 henc
+  have hw : termAll fbs = wireItems fs := by simp [wireItems, h1]
+  have := segLoop_items es hnd (decOK_of_mem hnd) fs [] 0 ((termAll fbs ++ rest).length + 1) rest h2
+    (by simpa [keysOf, h3] using hwf.2)
+    (by rw [hw]; have := wireItems_length_ge fs; simp only [List.length_append]; omega)
+    (hrest.mono (fun t ht => ⟨Or.inr (Or.inr (fun hm => ht (tagsOf_sub_deepTagsL _ t hm))),
+      fun e he hin => ht (deepTagsL_inner he t hin)⟩))
+  unfold segFromBytes
+  rw [hw] at this ⊢
+  rw [this, h4]
+  simp
+
+/-! ### last byte of an encoding -/
+
+theorem goodEnd_of_no_soh {l : Bytes} (hne : l ≠ []) (h : 1 ∉ l) : GoodEnd l := by
+  refine ⟨hne, ?_⟩
+  intro hl
+  rw [List.getLast?_eq_some_iff] at hl
+  obtain ⟨ys, rfl⟩ := hl
+  exact h (by simp)
+
+theorem goodEnd_fieldBytes (t : Nat) {vb : Bytes} (h : 1 ∉ vb) : GoodEnd (fieldBytes t vb) := by
+  unfold fieldBytes
+  apply goodEnd_append_right
+  apply goodEnd_of_no_soh (by simp)
+  intro hm
+  rcases List.mem_cons.mp hm with hm | hm
+  · exact absurd hm (by decide)
+  · exact h hm
+
+/-- a well-formed value's encoding is not empty and does not end with SOH -/
+def EndOK (e : Entry) : Prop := ∀ v b, wfVal e v = true → encEntry e v = .ok b → GoodEnd b
+
+theorem endOK_all : ∀ e : Entry, (deepTags e).Nodup → EndOK e := by
+  apply entry_ind
+  · intro t ty r _ v b hwf henc
+    simp only [wfVal] at hwf
+    simp only [encEntry] at henc
+    obtain ⟨vb, hvb, h⟩ := bind_ok henc
+    simp only [pure_eq_ok] at h
+    injection h with h
+    subst h
+    exact goodEnd_fieldBytes t (prim_roundtrip hwf hvb).1
+  · intro t sub r ih hnd v b hwf henc
+    simp only [deepTags, List.nodup_cons] at hnd
+    cases v with
+    | grp insts =>
+      simp only [wfVal] at hwf
+      simp only [encEntry] at henc
+      obtain ⟨gs, hgs, h⟩ := bind_ok henc
+      simp only [pure_eq_ok] at h
+      injection h with h
+      subst h
+      have hall := mapE_all₂ hgs
+      have key : ∀ {is : List Seg} {gl : List Bytes},
+          All₂ (fun a b => (encGroupFields sub a >>= fun fs => pure (joinSOH fs)) = Except.ok b) is gl →
+          wfInsts sub is = true → ∀ x ∈ gl, GoodEnd x := by
+        intro is gl hal
+        induction hal with
+        | nil => intro _ x hx; simp at hx
+        | @cons inst g insts' gs' hg _ ih2 =>
+          intro hwf x hx
+          simp only [wfInsts, Bool.and_eq_true, decide_eq_true_eq] at hwf
+          obtain ⟨⟨⟨hwff, hfirst⟩, _⟩, hwf'⟩ := hwf
+          rcases List.mem_cons.mp hx with hx | hx
+          · subst hx
+            obtain ⟨fbs, hf, hh⟩ := bind_ok hg
+            simp only [pure_eq_ok] at hh
+            injection hh with hh
+            subst hh
+            obtain ⟨fs, h1, h2, h3, _⟩ := encGroupFields_items sub (nodup_tagsOf hnd.2) inst hwff sub fbs (fun e he => he) hf
+            have hne : fbs ≠ [] := by
+              cases sub with
+              | nil => simp [firstPresent] at hfirst
+              | cons e1 sub' =>
+                simp only [firstPresent] at hfirst
+                simp only [List.filter_cons, hfirst, if_true, List.map_cons] at h3
+                intro hnil
+                rw [hnil] at h1
+                simp at h1
+                rw [h1] at h3
+                simp [itemTags] at h3
+            apply goodEnd_joinSOH _ hne
+            intro y hy
+            rw [← h1] at hy
+            obtain ⟨it, hit, rfl⟩ := List.mem_map.mp hy
+            obtain ⟨hm, hw, he⟩ := h2 it hit
+            exact ih it.1 hm (nodup_deepTags_of_mem hm hnd.2) it.2.1 it.2.2 hw he
+          · exact ih2 hwf' x hx
+      apply goodEnd_joinSOH _ (by simp)
+      intro x hx
+      rcases List.mem_cons.mp hx with hx | hx
+      · subst hx; exact goodEnd_fieldBytes t (intStr_no_soh _)
+      · exact key hall hwf x hx
+    | int _ => simp [wfVal] at hwf
+    | flt _ => simp [wfVal] at hwf
+    | bool _ => simp [wfVal] at hwf
+    | str _ => simp [wfVal] at hwf
+
+/-! ### assembling a message -/
+
+theorem deepTagsL_append (a b : List Entry) : deepTagsL (a ++ b) = deepTagsL a ++ deepTagsL b := by
+  induction a with
+  | nil => simp [deepTagsL]
+  | cons x xs ih => simp [deepTagsL, ih]
+
+/-- a segment's bytes followed by SOH, nothing for an empty segment -/
+def termSeg (x : Bytes) : Bytes := if x.isEmpty then [] else x ++ [1]
+
+theorem endsWithSOH_false {b : Bytes} (h : GoodEnd b) : endsWithSOH b = false := by
+  unfold endsWithSOH
+  cases hb : b.getLast? with
+  | none => rfl
+  | some x =>
+    have : x ≠ 1 := by intro hx; subst hx; exact h.2 hb
+    simp [this]
+
+theorem termSeg_nil : termSeg [] = [] := rfl
+theorem termSeg_good {b : Bytes} (h : GoodEnd b) : termSeg b = b ++ [1] := by
+  unfold termSeg
+  have : b.isEmpty = false := by
+    cases b with
+    | nil => exact absurd rfl h.1
+    | cons _ _ => rfl
+  simp [this]
+
+theorem isEmpty_good {b : Bytes} (h : GoodEnd b) : b.isEmpty = false := by
+  cases b with
+  | nil => exact absurd rfl h.1
+  | cons _ _ => rfl
+
+/-- `Message.to_bytes`: join of the non-empty segments, then the closing SOH -/
+theorem assemble (h b t : Bytes) (hh : h = [] ∨ GoodEnd h) (hb : b = [] ∨ GoodEnd b) (ht : t = [] ∨ GoodEnd t)
+    (hne : ¬ (h = [] ∧ b = [] ∧ t = [])) :
+    (if endsWithSOH (joinSOH ([h, b, t].filter (fun x => !x.isEmpty))) = true
+      then joinSOH ([h, b, t].filter (fun x => !x.isEmpty))
+      else joinSOH ([h, b, t].filter (fun x => !x.isEmpty)) ++ [1]) = termSeg h ++ termSeg b ++ termSeg t := by
+  rcases hh with rfl | hh <;> rcases hb with rfl | hb <;> rcases ht with rfl | ht
+  · exact absurd ⟨rfl, rfl, rfl⟩ hne
+  · simp [List.filter, isEmpty_good ht, joinSOH, endsWithSOH_false ht, termSeg_nil, termSeg_good ht]
+  · simp [List.filter, isEmpty_good hb, joinSOH, endsWithSOH_false hb, termSeg_nil, termSeg_good hb]
+  · have g : GoodEnd (joinSOH [b, t]) := goodEnd_joinSOH _ (by simp) (by intro x hx; simp at hx; rcases hx with rfl | rfl <;> assumption)
+    simp only [List.filter, List.isEmpty_nil, Bool.not_true, isEmpty_good hb, isEmpty_good ht, Bool.not_false,
+      endsWithSOH_false g, Bool.false_eq_true, if_false, termSeg_nil, termSeg_good hb, termSeg_good ht]
+    simp [joinSOH]
+  · simp [List.filter, isEmpty_good hh, joinSOH, endsWithSOH_false hh, termSeg_nil, termSeg_good hh]
+  · have g : GoodEnd (joinSOH [h, t]) := goodEnd_joinSOH _ (by simp) (by intro x hx; simp at hx; rcases hx with rfl | rfl <;> assumption)
+    simp only [List.filter, List.isEmpty_nil, Bool.not_true, isEmpty_good hh, isEmpty_good ht, Bool.not_false,
+      endsWithSOH_false g, Bool.false_eq_true, if_false, termSeg_nil, termSeg_good hh, termSeg_good ht]
+    simp [joinSOH]
+  · have g : GoodEnd (joinSOH [h, b]) := goodEnd_joinSOH _ (by simp) (by intro x hx; simp at hx; rcases hx with rfl | rfl <;> assumption)
+    simp only [List.filter, List.isEmpty_nil, Bool.not_true, isEmpty_good hh, isEmpty_good hb, Bool.not_false,
+      endsWithSOH_false g, Bool.false_eq_true, if_false, termSeg_nil, termSeg_good hh, termSeg_good hb]
+    simp [joinSOH]
+  · have g : GoodEnd (joinSOH [h, b, t]) := goodEnd_joinSOH _ (by simp)
+      (by intro x hx; simp at hx; rcases hx with rfl | rfl | rfl <;> assumption)
+    simp only [List.filter, isEmpty_good hh, isEmpty_good hb, isEmpty_good ht, Bool.not_false,
+      endsWithSOH_false g, Bool.false_eq_true, if_false, termSeg_good hh, termSeg_good hb, termSeg_good ht]
+    simp [joinSOH]
+
+/-- the encoded fields of a well-formed segment -/
+theorem encSegFields_good (es : List Entry) (hnd : (deepTagsL es).Nodup) (s : Seg) (fbs : List Bytes)
+    (hwf : wfSeg es s = true) (henc : encSegFields es s = .ok fbs) :
+    (∀ x ∈ fbs, GoodEnd x) ∧ (fbs = [] ↔ s = []) := by
+  simp only [wfSeg, Bool.and_eq_true, decide_eq_true_eq] at hwf
+  obtain ⟨fs, h1, h2, h3, _⟩ := encSegFields_items es s fbs hwf.1 henc
+  constructor
+  · intro x hx
+    rw [← h1] at hx
+    obtain ⟨it, hit, rfl⟩ := List.mem_map.mp hx
+    obtain ⟨hm, hw, he⟩ := h2 it hit
+    exact endOK_all it.1 (nodup_deepTags_of_mem hm hnd) it.2.1 it.2.2 hw he
+  · have hl : fbs.length = s.length := by
+      rw [← h1, List.length_map]
+      have := congrArg List.length h3
+      simpa [itemTags, keysOf] using this
+    constructor
+    · intro h; rw [h] at hl; exact List.eq_nil_of_length_eq_zero hl.symm
+    · intro h; rw [h] at hl; exact List.eq_nil_of_length_eq_zero hl
+
+theorem termSeg_joinSOH (fbs : List Bytes) (h : ∀ x ∈ fbs, GoodEnd x) : termSeg (joinSOH fbs) = termAll fbs := by
+  cases fbs with
+  | nil => rfl
+  | cons a l =>
+    rw [termSeg_good (goodEnd_joinSOH _ (by simp) h), joinSOH_term]
+
+theorem joinSOH_nil_or_good (fbs : List Bytes) (h : ∀ x ∈ fbs, GoodEnd x) : joinSOH fbs = [] ∨ GoodEnd (joinSOH fbs) := by
+  cases fbs with
+  | nil => exact Or.inl rfl
+  | cons a l => exact Or.inr (goodEnd_joinSOH _ (by simp) h)
+
+/-! ### re-encoding -/
+
+theorem keys_canonFields (es : List Entry) (inst : Seg) : ∀ t ∈ keysOf (canonFields es inst), t ∈ tagsOf es := by
+  induction es with
+  | nil => intro t ht; simp [canonFields, keysOf] at ht
+  | cons x xs ih =>
+    intro t ht
+    simp only [canonFields] at ht
+    cases hl : lookupV inst x.tag with
+    | none => rw [hl] at ht; simp [tagsOf]; exact Or.inr (by simpa [tagsOf] using ih t ht)
+    | some v =>
+      rw [hl] at ht
+      simp only [keysOf, List.map_cons, List.mem_cons] at ht
+      rcases ht with ht | ht
+      · simp [tagsOf, ht]
+      · simp [tagsOf]; exact Or.inr (by simpa [tagsOf] using ih t ht)
+
+theorem lookupV_none_of_not_key {s : Seg} {t : Nat} (h : t ∉ keysOf s) : lookupV s t = none := by
+  have := hasKey_false h
+  simp only [hasKey] at this
+  cases hl : lookupV s t with
+  | none => rfl
+  | some v => rw [hl] at this; simp at this
+
+theorem lookupV_canonFields {sub : List Entry} (hnd : (tagsOf sub).Nodup) (inst : Seg) {e : Entry} (he : e ∈ sub) :
+    lookupV (canonFields sub inst) e.tag = (lookupV inst e.tag).map (canonVal e) := by
+  induction sub with
+  | nil => simp at he
+  | cons x xs ih =>
+    simp only [tagsOf, List.map_cons, List.nodup_cons] at hnd
+    simp only [canonFields]
+    rcases List.mem_cons.mp he with hx | hx
+    · subst hx
+      cases hl : lookupV inst e.tag with
+      | none =>
+        simp only [Option.map_none]
+        apply lookupV_none_of_not_key
+        intro hk
+        exact hnd.1 (keys_canonFields xs inst _ hk)
+      | some v => simp [lookupV]
+    · have hne : x.tag ≠ e.tag := by
+        intro hh; exact hnd.1 (by rw [hh]; exact List.mem_map.mpr ⟨e, hx, rfl⟩)
+      cases hl : lookupV inst x.tag with
+      | none => exact ih hnd.2 hx
+      | some v =>
+        simp only [lookupV, hne, if_false]
+        exact ih hnd.2 hx
+
+/-- re-encoding the canonical form of a value gives the same bytes -/
+def ReOK (e : Entry) : Prop := ∀ v, encEntry e (canonVal e v) = encEntry e v
+
+theorem mapE_congr {α β : Type} {f g : α → Except Err β} : ∀ (l : List α), (∀ a ∈ l, f a = g a) → mapE f l = mapE g l
+  | [], _ => rfl
+  | a :: as, h => by
+    simp only [mapE]
+    rw [h a (by simp), mapE_congr as (fun x hx => h x (by simp [hx]))]
+
+theorem mapE_map {α β γ : Type} (f : β → Except Err γ) (g : α → β) : ∀ (l : List α), mapE f (l.map g) = mapE (fun a => f (g a)) l
+  | [] => rfl
+  | a :: as => by simp only [List.map_cons, mapE]; rw [mapE_map f g as]
+
+theorem reOK_all : ∀ e : Entry, (deepTags e).Nodup → ReOK e := by
+  apply entry_ind
+  · intro t ty r _ v
+    cases v <;> simp [canonVal]
+  · intro t sub r ih hnd v
+    simp only [deepTags, List.nodup_cons] at hnd
+    have htn := nodup_tagsOf hnd.2
+    cases v with
+    | grp insts =>
+      have hfields : ∀ (inst : Seg) (es' : List Entry), (∀ e ∈ es', e ∈ sub) →
+          encGroupFields es' (canonFields sub inst) = encGroupFields es' inst := by
+        intro inst es'
+        induction es' with
+        | nil => intro _; simp [encGroupFields]
+        | cons x xs ihx =>
+          intro hsub
+          have hx : x ∈ sub := hsub x (by simp)
+          simp only [encGroupFields]
+          rw [lookupV_canonFields htn inst hx, ihx (fun e he => hsub e (by simp [he]))]
+          cases hl : lookupV inst x.tag with
+          | none => simp
+          | some v =>
+            simp only [Option.map_some]
+            rw [ih x hx (nodup_deepTags_of_mem hx hnd.2) v]
+      simp only [canonVal, encEntry, List.length_map]
+      rw [mapE_map]
+      rw [mapE_congr insts (g := fun inst => do let fs ← encGroupFields sub inst; pure (joinSOH fs))]
+      intro inst _
+      simp only [hfields inst sub (fun e he => he)]
+    | int _ => simp [canonVal]
+    | flt _ => simp [canonVal]
+    | bool _ => simp [canonVal]
+    | str _ => simp [canonVal]
+
+theorem encSegFields_canon (es : List Entry) (hnd : (deepTagsL es).Nodup) (s : Seg) :
+    encSegFields es (canonSeg es s) = encSegFields es s := by
+  simp only [encSegFields, canonSeg]
+  rw [mapE_map]
+  apply mapE_congr
+  intro p _
+  simp only
+  cases hl : lookupE es p.1 with
+  | none => rfl
+  | some e =>
+    simp only
+    exact reOK_all e (nodup_deepTags_of_mem (lookupE_some hl).1 hnd) p.2
+
+/-! ### equality -/
+
+mutual
+theorem valEq_refl : (v : Val) → valEq v v = true
+  | .int _ => by simp [valEq, primEq]
+  | .flt _ => by simp [valEq, primEq]
+  | .bool _ => by simp [valEq, primEq]
+  | .str _ => by simp [valEq, primEq]
+  | .grp is => by simp only [valEq]; exact instsEq_refl is
+theorem instsEq_refl : (is : List (List (Nat × Val))) → instsEq is is = true
+  | [] => by simp [instsEq]
+  | i :: is => by simp only [instsEq, Bool.and_eq_true]; exact ⟨segEq_refl i, instsEq_refl is⟩
+theorem segEq_refl : (s : List (Nat × Val)) → segEq s s = true
+  | [] => by simp [segEq]
+  | (k, v) :: s => by
+    simp only [segEq, Bool.and_eq_true, beq_self_eq_true, true_and]
+    exact ⟨valEq_refl v, segEq_refl s⟩
+end
+
+theorem pyEq_refl (m : Msg) : pyEq m m = true := by
+  simp [pyEq, segEq_refl]
+
+/-! ### the message type -/
+
+theorem findFrom_eq (pat bs : Bytes) (start : Nat) (h : start ≤ bs.length) :
+    findFrom pat bs start = (findSub pat (bs.drop start)).map (· + start) := by
+  unfold findFrom
+  have : ¬ start > bs.length := by omega
+  simp [this]
+
+/-- bytes that begin with `35=<type>SOH` name that type -/
+theorem getMsgType_first (ty rest : Bytes) (h1 : 1 ∉ ty) (ha : ty.all (· < 128) = true) :
+    getMsgType ([51, 53, 61] ++ ty ++ 1 :: rest) = .ok ty := by
+  have e0 : findSub [51, 53, 61] ([51, 53, 61] ++ ty ++ 1 :: rest) = some 0 := by
+    simp [findSub, List.isPrefixOf]
+  have e1 : findFrom [1] ([51, 53, 61] ++ ty ++ 1 :: rest) 2 = some (ty.length + 3) := by
+    rw [findFrom_eq _ _ _ (by simp)]
+    have : ([51, 53, 61] ++ ty ++ 1 :: rest).drop 2 = (61 :: ty) ++ 1 :: rest := by simp
+    rw [this, findSub_one_append 1 (61 :: ty) rest (by
+      intro hm; rcases List.mem_cons.mp hm with hm | hm
+      · exact absurd hm (by decide)
+      · exact h1 hm)]
+    simp
+  unfold getMsgType
+  simp only [e0, e1]
+  have : (List.take (ty.length + 3) ([51, 53, 61] ++ ty ++ 1 :: rest)).drop (0 + 2 + 1) = ty := by
+    have e : [51, 53, 61] ++ ty ++ 1 :: rest = ([51, 53, 61] ++ ty) ++ 1 :: rest := by simp
+    rw [e, List.take_left' (by simp)]
+    simp
+  rw [this]
+  unfold decodeAscii
+  rw [if_pos ha]
+
+/-! ### encoding never raises on well-formed values -/
+
+theorem mapE_ok_of_forall {α β : Type} {f : α → Except Err β} : ∀ (l : List α), (∀ a ∈ l, ∃ b, f a = .ok b) →
+    ∃ r, mapE f l = .ok r
+  | [], _ => ⟨[], rfl⟩
+  | a :: as, h => by
+    obtain ⟨b, hb⟩ := h a (by simp)
+    obtain ⟨r, hr⟩ := mapE_ok_of_forall as (fun x hx => h x (by simp [hx]))
+    exact ⟨b :: r, by simp [mapE, hb, hr]⟩
+
+theorem tyToBytes_ok {ty : FTy} {v : Val} (hw : wfPrim ty v = true) : ∃ b, tyToBytes ty v = .ok b := by
+  cases ty <;> cases v <;> simp [wfPrim] at hw
+  case int.int i => exact ⟨intStr i, by simp [tyToBytes, encodeAscii, intStr_all_lt']⟩
+  case float.flt t => exact ⟨t, by simp [tyToBytes, encodeAscii, (wfText_iff hw).1]⟩
+  case bool.bool x => exact ⟨_, rfl⟩
+  case char.str t => exact ⟨t, by simp [tyToBytes, encodeAscii, (wfText_iff hw).1]⟩
+  case string.str t => exact ⟨t, by simp [tyToBytes, encodeAscii, (wfText_iff hw).1]⟩
+
+def EncOK (e : Entry) : Prop := ∀ v, wfVal e v = true → ∃ b, encEntry e v = .ok b
+
+theorem encOK_all : ∀ e : Entry, (deepTags e).Nodup → EncOK e := by
+  apply entry_ind
+  · intro t ty r _ v hwf
+    simp only [wfVal] at hwf
+    obtain ⟨b, hb⟩ := tyToBytes_ok hwf
+    exact ⟨fieldBytes t b, by simp [encEntry, hb]⟩
+  · intro t sub r ih hnd v hwf
+    simp only [deepTags, List.nodup_cons] at hnd
+    have htn := nodup_tagsOf hnd.2
+    cases v with
+    | grp insts =>
+      simp only [wfVal] at hwf
+      have hfields : ∀ (inst : Seg), wfFields sub inst = true → ∀ (es' : List Entry), (∀ e ∈ es', e ∈ sub) →
+          ∃ fbs, encGroupFields es' inst = .ok fbs := by
+        intro inst hwff es'
+        induction es' with
+        | nil => intro _; exact ⟨[], rfl⟩
+        | cons x xs ihx =>
+          intro hsub
+          have hx : x ∈ sub := hsub x (by simp)
+          obtain ⟨r', hr'⟩ := ihx (fun e he => hsub e (by simp [he]))
+          simp only [encGroupFields]
+          cases hl : lookupV inst x.tag with
+          | none => exact ⟨r', hr'⟩
+          | some v =>
+            obtain ⟨e', hle, hwv⟩ := wfFields_mem hwff (lookupV_mem hl)
+            have : e' = x := by
+              have := lookupE_mem htn hx
+              rw [hle] at this
+              injection this
+            subst this
+            obtain ⟨b, hb⟩ := ih e' hx (nodup_deepTags_of_mem hx hnd.2) v hwv
+            exact ⟨b :: r', by simp [hb, hr']⟩
+      have hall : ∀ inst ∈ insts, wfFields sub inst = true := by
+        clear hfields
+        induction insts with
+        | nil => intro _ h; simp at h
+        | cons i is ihi =>
+          simp only [wfInsts, Bool.and_eq_true] at hwf
+          intro inst hin
+          rcases List.mem_cons.mp hin with h | h
+          · subst h; exact hwf.1.1.1
+          · exact ihi hwf.2 inst h
+      obtain ⟨gs, hgs⟩ := mapE_ok_of_forall (f := fun inst => do let fs ← encGroupFields sub inst; pure (joinSOH fs)) insts
+        (by
+          intro inst hin
+          obtain ⟨fbs, hf⟩ := hfields inst (hall inst hin) sub (fun e he => he)
+          exact ⟨joinSOH fbs, by simp [hf]⟩)
+      exact ⟨joinSOH (fieldBytes t (intStr (insts.length : Int)) :: gs), by simp only [encEntry]; rw [hgs]; rfl⟩
+    | int _ => simp [wfVal] at hwf
+    | flt _ => simp [wfVal] at hwf
+    | bool _ => simp [wfVal] at hwf
+    | str _ => simp [wfVal] at hwf
+
+theorem encSegFields_ok (es : List Entry) (hnd : (deepTagsL es).Nodup) (s : Seg) (hwf : wfFields es s = true) :
+    ∃ fbs, encSegFields es s = .ok fbs := by
+  apply mapE_ok_of_forall
+  intro p hp
+  obtain ⟨e, hle, hwv⟩ := wfFields_mem hwf (show (p.1, p.2) ∈ s from hp)
+  simp only [hle]
+  exact encOK_all e (nodup_deepTags_of_mem (lookupE_some hle).1 hnd) p.2 hwv
+
+/-! ### assignment order of a group instance does not matter -/
+
+theorem lookupV_eq_some_iff {s : Seg} (hnd : (keysOf s).Nodup) {t : Nat} {v : Val} : lookupV s t = some v ↔ (t, v) ∈ s := by
+  constructor
+  · exact lookupV_mem
+  · intro hm
+    induction s with
+    | nil => simp at hm
+    | cons p s ih =>
+      obtain ⟨k, w⟩ := p
+      simp only [keysOf, List.map_cons, List.nodup_cons] at hnd
+      simp only [lookupV]
+      rcases List.mem_cons.mp hm with hm | hm
+      · injection hm with h1 h2; subst h1; subst h2; simp
+      · have : k ≠ t := by
+          intro hk; subst hk
+          exact hnd.1 (List.mem_map.mpr ⟨(k, v), hm, rfl⟩)
+        simp only [this, if_false]
+        exact ih hnd.2 hm
+
+theorem lookupV_perm {s s' : Seg} (hp : s'.Perm s) (hnd : (keysOf s).Nodup) (t : Nat) : lookupV s' t = lookupV s t := by
+  have hnd' : (keysOf s').Nodup := (hp.map Prod.fst).nodup_iff.mpr hnd
+  cases h : lookupV s t with
+  | some v =>
+    rw [lookupV_eq_some_iff hnd] at h
+    rw [lookupV_eq_some_iff hnd']
+    exact hp.mem_iff.mpr h
+  | none =>
+    cases h' : lookupV s' t with
+    | none => rfl
+    | some v =>
+      rw [lookupV_eq_some_iff hnd'] at h'
+      have := (lookupV_eq_some_iff hnd).mpr (hp.mem_iff.mp h')
+      rw [h] at this
+      exact absurd this (by simp)
+
+theorem encGroupFields_perm (es : List Entry) {s s' : Seg} (hp : s'.Perm s) (hnd : (keysOf s).Nodup) :
+    encGroupFields es s' = encGroupFields es s := by
+  induction es with
+  | nil => rfl
+  | cons x xs ih => simp only [encGroupFields, lookupV_perm hp hnd, ih]
+
+/-- the fields `Group.to_bytes` writes for one instance, without well-formedness assumptions -/
+theorem encGroupFields_layout (inst : Seg) :
+    ∀ (es' : List Entry) (fbs : List Bytes), encGroupFields es' inst = .ok fbs →
+      ∃ fs : List Item, fs.map (fun x => x.2.2) = fbs ∧
+        (∀ x ∈ fs, x.1 ∈ es' ∧ lookupV inst x.1.tag = some x.2.1 ∧ encEntry x.1 x.2.1 = .ok x.2.2) ∧
+        itemTags fs = (es'.filter (fun e => hasKey inst e.tag)).map Entry.tag := by
+  intro es'
+  induction es' with
+  | nil =>
+    intro fbs h
+    simp only [encGroupFields, pure_eq_ok] at h
+    injection h with h
+    exact ⟨[], by simp [h], by simp, by simp [itemTags]⟩
+  | cons e es' ih =>
+    intro fbs h
+    simp only [encGroupFields] at h
+    cases hl : lookupV inst e.tag with
+    | none =>
+      rw [hl] at h
+      obtain ⟨fs, h1, h2, h3⟩ := ih fbs h
+      have hk : hasKey inst e.tag = false := by simp [hasKey, hl]
+      exact ⟨fs, h1, fun x hx => ⟨by simp [(h2 x hx).1], (h2 x hx).2⟩, by simp [h3, hk]⟩
+    | some v =>
+      rw [hl] at h
+      simp only at h
+      obtain ⟨b, hb, hh⟩ := bind_ok h
+      obtain ⟨r, hr, hh2⟩ := bind_ok hh
+      simp only [pure_eq_ok] at hh2
+      injection hh2 with hfb
+      obtain ⟨fs, h1, h2, h3⟩ := ih r hr
+      have hk : hasKey inst e.tag = true := by simp [hasKey, hl]
+      refine ⟨(e, v, b) :: fs, by simp [h1, ← hfb], ?_, by simp [itemTags, hk] at h3 ⊢; exact h3⟩
+      intro x hx
+      rcases List.mem_cons.mp hx with hx | hx
+      · subst hx; exact ⟨by simp, hl, hb⟩
+      · exact ⟨by simp [(h2 x hx).1], (h2 x hx).2⟩
+
 end NasdaqModel.Fix
